@@ -1728,6 +1728,18 @@ def _boolean_str_in(
     return expr, open_not
 
 
+def _not_a_bare_word(expression: Expression, words: tuple[str, ...]) -> str:
+    """Return _expression_ as a string, in bracket notation if it is a variable
+    named like one of _words_, which have a special meaning where it stands."""
+    if (
+        isinstance(expression, Path)
+        and len(expression.path) == 1
+        and expression.path[0] in words
+    ):
+        return f"[{_string_repr(str(expression.path[0]))}]"
+    return str(expression)
+
+
 class LoopExpression(Expression):
     __slots__ = ("identifier", "iterable", "limit", "offset", "reversed", "cols")
 
@@ -1762,13 +1774,24 @@ class LoopExpression(Expression):
         )
 
     def __str__(self) -> str:
-        buf = [f"{self.identifier} in", str(self.iterable)]
+        iterable = str(self.iterable)
+        if isinstance(self.iterable, ArrayLiteral) and len(self.iterable.items) > 1:
+            # After the first comma, a bare `limit`, `offset`, `cols` or
+            # `reversed` would be read as the start of the loop's options.
+            items = [str(item) for item in self.iterable.items]
+            items[1] = _not_a_bare_word(
+                self.iterable.items[1], ("limit", "offset", "cols", "reversed")
+            )
+            iterable = ", ".join(items)
+
+        buf = [f"{self.identifier} in", iterable]
 
         if self.limit is not None:
             buf.append(f"limit:{self.limit}")
 
         if self.offset is not None:
-            buf.append(f"offset:{self.offset}")
+            # A bare `continue` would be read as the keyword, not as a variable.
+            buf.append(f"offset:{_not_a_bare_word(self.offset, ('continue',))}")
 
         if self.cols is not None:
             buf.append(f"cols:{self.cols}")
